@@ -187,6 +187,8 @@ func run(c *core.Ctx) {
 	partD(c, ag, partDeadline(c, 0.9))
 	ag.flush(c)
 
+	partE(c) // concurrently accepted connections under the controlled scheduler (worker processes); last
+
 	cases := c.Count("cases_sniffer") + c.Count("cases_write") + c.Count("cases_websocket_read") +
 		c.Count("cases_websocket_write") + c.Count("cases_websocket_gorilla") + c.Count("cases_write_concurrent_schedules")
 	c.Set("states", cases)
